@@ -183,6 +183,10 @@ func (g *G) genStruct(c *objCase, o genOpts, depth int) *TD {
 	id := c.nextS
 	c.nextS++
 	nf := g.intn(5)
+	wide := g.chance(0.08)
+	if wide {
+		nf = 9 + g.intn(4) // wide structs: more than 8 mapped fields
+	}
 	t := &TD{k: "st", n: id}
 	var sf []reflect.StructField
 	for i := 0; i < nf; i++ {
@@ -195,6 +199,9 @@ func (g *G) genStruct(c *objCase, o genOpts, depth int) *TD {
 			} else {
 				ft = zs
 			}
+		} else if wide {
+			k := []string{"i", "s", "b", "u16", "i64", "f64"}[g.intn(6)]
+			ft = &TD{k: k, rt: primKinds[k]}
 		} else {
 			ft = g.genType(c, o, depth+1)
 		}
@@ -233,7 +240,7 @@ func (g *G) genStruct(c *objCase, o genOpts, depth int) *TD {
 			ad.flds = append(ad.flds, fldD{name: name, route: []int{i, 0}, t: inner.field[0], omit: g.chance(0.3)})
 			continue
 		}
-		if g.chance(0.1) {
+		if g.chance(0.1) && !wide {
 			continue // unmapped field
 		}
 		ad.flds = append(ad.flds, fldD{name: name, route: []int{i}, t: ft, omit: g.chance(0.35)})
